@@ -9,6 +9,9 @@ Oracle ops for the `num` family (C10).  Byte strings are lowercase hex, empty = 
   num tokint  <hex>                        → `<v> <none|syntax|range>`   Token.Int on a raw number
   num tokuint <hex>                        → `<v> <none|syntax|range>`   Token.Uint
   num tokfloat <32|64> <hex>               → `<ieee bits, decimal> <none|range>`   Token.Float / exact ParseFloat
+  num ttok <i|u|f|F> <arg>                 → `<int> <err> <uint> <err> <f64 bits> <err> <f32 bits> <err>`: Token.Int/Uint/Float/Float32 of the
+                                             typed token jsontext.Int(arg) | Uint(arg) | Float(float64frombits(arg)) | Float32(float32frombits(arg))
+                                             (arg decimal; finite floats only)
   num fmtfloat <neg 0|1> <digits|-> <dp>   → hex of jsonwire.AppendFloat's text for 0.d₁…d_k × 10^dp
   num ecma     <neg 0|1> <digits|-> <n>    → hex of the ECMA-262 Number::toString layout (Spec.Ecma)
   num fmtint <decimal>                     → hex of strconv.AppendInt(…, 10)
@@ -71,6 +74,22 @@ def handle (op : String) (args : List String) : String :=
   | "tokfloat", [bits, h] => match fmtOf bits, bytesOfHex h with
     | some ff, some b => let (f, e) := tokenFloat (parseFloatExact ff) b; s!"{f.toBits ff} {showNumErr e}"
     | _, _ => badArgs
+  | "ttok", [ctor, arg] =>
+    let tok : Option Tok := match ctor, arg.toInt? with
+      | "i", some n => some (mkInt n)
+      | "u", some n => some (mkUint n.toNat)
+      | "f", some n => some (mkFloat (Fl.ofBits fmt64 n.toNat) false)
+      | "F", some n => some (mkFloat (Fl.ofBits fmt32 n.toNat) true)
+      | _, _ => none
+    match tok with
+    | some t =>
+      let pf32 := parseFloatExact fmt32
+      let (i, ie) := tokInt pf64 t
+      let (u, ue) := tokUint pf64 t
+      let (f, fe) := tokFloat64 pf64 pf32 t
+      let (g, ge) := tokFloat32 pf64 pf32 t
+      s!"{i} {showNumErr ie} {u} {showNumErr ue} {(roundFl fmt64 f).toBits fmt64} {showNumErr fe} {(roundFl fmt32 g).toBits fmt32} {showNumErr ge}"
+    | none => badArgs
   | "fmtfloat", [neg, ds, dp] => match parseDigits ds, dp.toInt? with
     | some ds, some dp => hexOfBytes (appendFloat (neg == "1") ds dp)
     | _, _ => badArgs
